@@ -254,6 +254,8 @@ def run(ctx):
     # missing DEST / missing target are reported: count of broken_refs pushes/extends
     ext = [pos for pos, tt in cr.iter_calls() if call_matches(tt, r'Vec.*::(push|extend)')]
     C.check(len(ext) >= 4, 'C05-SIB-report', 'check_references|four-report-sites', 'check_references has %d report sites (expected: wrong DEST, missing DEST, dead target, missing target)' % len(ext))
+    import scope
+    scope.closed_world(C, P, 'C05-PAIR-origins')
     return C.finish('Pairing of reference-text writes and subtree edits with maintenance of the reverse reference map (dominance / all-paths queries on MIR), '
                     'Engler-style deviance rule for unconditional HashMap::insert, sibling agreement of the invalid-reference report with the resolver. '
                     'Does not decide the set equality map = references in the tree after histories.')
